@@ -77,19 +77,20 @@ theorem Shape_fresh (P : Program) (F : Flags) (c : Config) (kind : Kind) (t : Na
   cases h : earlyResult P[t]? (c.callCount t + 1) F.maxCalls with
   | none => exact ⟨ShapeOut_default, Bare_ok⟩
   | some r =>
-    have hr : r = .ok ∨ ∃ k, r = .typed k := by
+    have hr : r = .ok ∨ r = .generic ∨ ∃ k, r = .typed k := by
       unfold earlyResult at h
       split at h
-      · cases h; exact .inr ⟨_, rfl⟩
+      · cases h; exact .inr (.inr ⟨_, rfl⟩)
       · repeat' split at h
         all_goals cases h
-        all_goals first | exact .inl rfl | exact .inr ⟨_, rfl⟩
+        all_goals first | exact .inl rfl | exact .inr (.inl rfl) | exact .inr (.inr ⟨_, rfl⟩)
     refine ⟨ShapeOut.mkPlain r ?_ ?_, Bare_ok⟩
-    · rcases hr with e | ⟨k, e⟩ <;> rw [e]
+    · rcases hr with e | e | ⟨k, e⟩ <;> rw [e]
       · exact Bare_ok
+      · exact Bare_generic
       · exact Bare_typed k
     · intro n hq
-      rcases hr with e | ⟨k, e⟩ <;> (rw [e] at hq; cases hq)
+      rcases hr with e | e | ⟨k, e⟩ <;> (rw [e] at hq; cases hq)
 
 theorem fail_Shape (z : Act) (e : Res) (hb : Bare e) (hok : e.isOk = false) (hc : Bare z.callRes) : Shape (z.fail e) :=
   ⟨ShapeOut.mkMarked e hb hok, hc⟩
